@@ -2223,8 +2223,9 @@ def allclose(a, b, atol: float = 1e-8):
     -----------
     bool indicating if all elements are within `atol`.
     """
-    #
-    return float(np.ptp(a - b)) < atol
+    # the largest absolute difference: the peak-to-peak range of the
+    # difference is zero for any two arrays offset by a constant
+    return float(np.abs(np.subtract(a, b)).max()) < atol
 
 
 class FunctionRegistry(Mapping):
